@@ -293,6 +293,16 @@ def build_value(bc, kind, param, enc, seed, bit):
         return text(param, salt, [c for c in safe if c != ' '])
     if kind == 'OVER':
         return text(param, salt, safe)
+    if kind == 'OVERICC':
+        # binary (ICC) data longer than the length prefix can count: well-formed TLVs, too many of them
+        parts, left = [], param
+        while left > 0:
+            n = min(250, left)
+            if left - n == 1:
+                n -= 1
+            parts.append(iso_ref.icc_build(icc_of_length(n, salt + left)))
+            left -= n
+        return b''.join(parts)
     if kind == 'UNENC':
         # text the codec cannot carry: a letter followed by a combining mark, the euro sign, a CJK character, an emoji
         bad = ['CAFE\u0301', 'A\u20acB', '\u4e2d\u6587', 'x\U0001f600', 'e\u0301', '\u0141\u00f3d\u017a'][param % 6]
